@@ -1,6 +1,7 @@
 """C07 — layout optimisation performs exactly the UMAP stochastic gradient descent."""
 import numpy as np
 
+import gen
 from common import Driver, f2b, b2f
 
 COORD_TOL = 1e-4     # one epoch: model (float32 rounding at stores) vs kernel (fastmath float32)
@@ -371,6 +372,65 @@ def run(ctx):
             else:
                 ctx.mismatch("sgdgen", {"max_diff": d, "output_metric": mname}, case)
         ctx.case(key="gen" + str(case["H"]) + mname, nontrivial=True, part="generic", output_metric=mname)
+
+    # ---- "embedding new points against a fixed reference layout": UMAP.transform end to end, for every optimiser it can dispatch to ----
+    # a harness-side wrapper (no change to /repo) records the reference layout handed to the optimiser and checks it afterwards
+    import umap
+    import umap.umap_ as UU
+    Xr, _ = gen.dataset(rng, 70, 4, kind="clusters")
+    Xn = (Xr[:12] + 0.07 * rng.normal(size=(12, 4))).astype(np.float32)
+    for om in (["euclidean", "haversine", "manhattan", "hyperboloid"] if ctx.thorough else ["euclidean", "haversine", "manhattan"]):
+        case = {"family": "transform-reference", "output_metric": om}
+        seen = []
+        orig = {nm: getattr(UU, nm) for nm in ("optimize_layout_euclidean", "optimize_layout_generic")}
+
+        def wrap(nm):
+            def w(head, tail, *a, **kw):
+                t0 = np.array(tail, copy=True)
+                out = orig[nm](head, tail, *a, **kw)
+                seen.append((nm, head is tail, bool(np.array_equal(t0, tail, equal_nan=True)), float(np.nanmax(np.abs(t0 - tail))) if t0.shape == tail.shape else -1.0))
+                return out
+            return w
+        try:
+            m = umap.UMAP(n_neighbors=7, n_epochs=30, random_state=11, output_metric=om).fit(Xr)
+            emb0 = m.embedding_.copy()
+            for nm in orig:
+                setattr(UU, nm, wrap(nm))
+            try:
+                out = m.transform(Xn)
+            finally:
+                for nm in orig:
+                    setattr(UU, nm, orig[nm])
+        except Exception as e:  # noqa
+            ctx.violation("exception", f"fit/transform with output_metric={om} raised {type(e).__name__}: {e}", case)
+            continue
+        for nm, aliased, same, dmax in seen:
+            if not aliased and not same:
+                ctx.violation("frozen-reference", f"transform (output_metric={om}): {nm} moved the reference layout it was given by up to {dmax}", case)
+        if not np.array_equal(m.embedding_, emb0, equal_nan=True):
+            ctx.violation("frozen-reference", f"transform (output_metric={om}) changed embedding_", case)
+        ctx.case(key="tref" + om, nontrivial=bool(seen), part="transform-reference", output_metric=om, optimiser=seen[0][0] if seen else "none")
+    # the kernels' documented default is a fixed reference: calls that rely on it
+    for t in range(4):
+        g = random_graph(rng, dyadic=True)
+        if g["aliased"]:
+            continue
+        H, T = g["H"].copy(), g["T"].copy()
+        T0 = T.copy()
+        case = case_of(g, N=3, family="default-move_other")
+        try:
+            if t % 2 == 0:
+                L.optimize_layout_euclidean(H, T, g["hd"], g["tl"], 3, g["nV"], g["eps"].copy(), g["a"], g["b"], g["rs"].copy(), g["gamma"],
+                                            g["alpha0"], g["rate"])
+            else:
+                L.optimize_layout_generic(H, T, g["hd"], g["tl"], 3, g["nV"], g["eps"].copy(), g["a"], g["b"], g["rs"].copy(), g["gamma"],
+                                          g["alpha0"], g["rate"], UD.named_distances_with_gradients["euclidean"], ())
+        except Exception as e:  # noqa
+            ctx.violation("exception", f"kernel call with default move_other raised {type(e).__name__}: {e}", case)
+            continue
+        if not np.array_equal(T, T0):
+            ctx.violation("frozen-reference", "a kernel called with separate head / reference layouts and the default move_other moved the reference", case)
+        ctx.case(key="defmo" + str(case["H"]), nontrivial=True, part="default-move_other")
 
     # ---- parametric variant: each edge replicated int(n_epochs * w) times, pruned edges never (function extracted by AST) ----
     try:
